@@ -189,8 +189,18 @@ pub fn layout_oracles(key: Option<usize>, lay: &Layout, built: &Built, real_debu
     }
     // --- C10: every skipped stage is justified
     let mut depnames: BTreeMap<String, usize> = BTreeMap::new(); // names of the staged systems registered before x
+    // names recorded by a registration that then failed inside the user's own callback: the name resolves,
+    // but to a system that sits in no stage. The property says nothing about builders used after such a
+    // failure; a system that depends on such a name is left out of this oracle
+    let ghosts: BTreeSet<&String> = order.iter().map(|t| info(t)).filter(|i| i.outcome == "callback-panic" && !i.name.is_empty()).map(|i| &i.name).collect();
     for x in &staged {
         let ix = info(x);
+        if ix.deps.iter().any(|d| ghosts.contains(d)) {
+            if !ix.name.is_empty() {
+                depnames.insert(ix.name.clone(), *x);
+            }
+            continue;
+        }
         let first = latest_before.get(&ix.epoch).map(|(s, _)| s + 1).unwrap_or(0);
         let deps: Vec<usize> = ix.deps.iter().filter_map(|d| depnames.get(d).cloned()).collect();
         if !ix.name.is_empty() {
